@@ -445,24 +445,31 @@ struct LookaroundParams {
 /// Represents an alternative path in a regex pattern.
 /// For example, in `/(?<a>x)|(?<a>y)/`, the two occurrences of 'a' are in different
 /// alternative paths (separated by |), so they don't conflict.
-/// Each element in the vector is (depth, alternative_index) where:
-/// - depth: parenthesis nesting level (0 = top level)
-/// - alternative_index: which alternative at that depth (0 = first, 1 = second after |, etc.)
+/// Each element in the vector is (group, alternative_index), outermost first, where:
+/// - group: which parenthesized group encloses the location at that nesting level
+///   (0 = the whole pattern, otherwise the ordinal of the group's opening parenthesis)
+/// - alternative_index: which alternative of that group (0 = first, 1 = second after |, etc.)
 #[derive(Debug, Clone, PartialEq, Eq)]
 struct AlternativePath {
-    /// Vector of (depth, alternative_index) pairs representing the path through alternatives
+    /// Vector of (group, alternative_index) pairs representing the path through alternatives
     segments: Vec<(usize, usize)>,
 }
 
 impl AlternativePath {
-    /// Check if two alternative paths conflict (i.e., are in the same alternative branch).
-    /// Two paths conflict if they share the same alternative indices at all common depth levels.
+    /// Check if two alternative paths conflict (i.e., both locations can take part in one match).
+    /// Two paths do not conflict only if, where they first differ, they are in different
+    /// alternatives of the same group.
     /// Example:
     ///   - [(0, 0)] and [(0, 0), (1, 0)] conflict (second is nested within first)
-    ///   - [(0, 0)] and [(0, 1)] don't conflict (different alternatives at depth 0)
+    ///   - [(0, 0)] and [(0, 1)] don't conflict (different alternatives of the pattern)
+    ///   - [(0, 0), (1, 0)] and [(0, 0), (2, 1)] conflict (two groups of the same alternative)
     fn conflicts_with(&self, other: &AlternativePath) -> bool {
-        let min_len = self.segments.len().min(other.segments.len());
-        self.segments[..min_len] == other.segments[..min_len]
+        for (a, b) in self.segments.iter().zip(other.segments.iter()) {
+            if a != b {
+                return a.0 != b.0;
+            }
+        }
+        true
     }
 }
 
@@ -2091,6 +2098,10 @@ where
         // Map from depth to current alternative index at that depth
         let mut alt_indices: HashMap<usize, usize> = HashMap::new();
         alt_indices.insert(0, 0);
+        // Map from depth to the group open at that depth (0 = the whole pattern)
+        let mut group_ids: HashMap<usize, usize> = HashMap::new();
+        group_ids.insert(0, 0);
+        let mut next_group_id: usize = 1;
 
         // Map from group name to all alternative paths where it appears
         let mut named_group_locations: HashMap<String, Vec<AlternativePath>> = HashMap::new();
@@ -2151,7 +2162,10 @@ where
                         // Build current alternative path from depth 0 to current depth.
                         let mut segments = Vec::new();
                         for d in 0..=paren_depth {
-                            segments.push((d, *alt_indices.get(&d).unwrap_or(&0)));
+                            segments.push((
+                                *group_ids.get(&d).unwrap_or(&0),
+                                *alt_indices.get(&d).unwrap_or(&0),
+                            ));
                         }
 
                         // Record this location.
@@ -2179,11 +2193,14 @@ where
                     // Entering a new group.
                     paren_depth += 1;
                     alt_indices.insert(paren_depth, 0);
+                    group_ids.insert(paren_depth, next_group_id);
+                    next_group_id += 1;
                 }
                 Some(')') => {
                     // Exiting a group
                     if paren_depth > 0 {
                         alt_indices.remove(&paren_depth);
+                        group_ids.remove(&paren_depth);
                         paren_depth -= 1;
                     }
                 }
